@@ -394,6 +394,51 @@ def _next(ex, st, args, dest_ty, func, where):
     return opt_sym(has, val)
 
 
+def _peekable(ex, st, args, dest_ty, func, where):
+    return mk_it(elements(ex, st, args[0], where))
+
+
+def _first_live(e):
+    """(slot index term, has, value) of the first element at or after e.pos whose condition holds"""
+    items = e.items
+    n = len(items)
+    slot = I(n)
+    for i in reversed(range(n)):
+        slot = z3.If(z3.And(i >= e.pos, items[i][0]), I(i), slot)
+    slot = simp(slot)
+    has = simp(slot < n)
+    val = items[-1][1] if items else None
+    for i in reversed(range(n - 1)):
+        val = merge(simp(slot == i), items[i][1], val)
+    return slot, has, val
+
+
+def _peek(ex, st, args, dest_ty, func, where):
+    it = ex.deref(st, args[0])
+    if not is_it(it):
+        raise Unsupported("peek on %r" % (it,))
+    e = it.f[0].what
+    if not e.items:
+        return none()
+    slot, has, val = _first_live(e)
+    return opt_sym(has, VRef("val", val=val))
+
+
+def _next_if(ex, st, args, dest_ty, func, where):
+    ref, pred = args
+    it = ex.deref(st, ref)
+    if not is_it(it):
+        raise Unsupported("next_if on %r" % (it,))
+    e = it.f[0].what
+    if not e.items:
+        return none()
+    slot, has, val = _first_live(e)
+    r = pure(ex, st, has, lambda s2: apply_fn(ex, s2, pred, [VRef("val", val=val)], where))
+    ok = simp(z3.And(has, r.t)) if r is not None else z3.BoolVal(False)
+    ex.store_ref(st, ref, mk_it(e.items, simp(z3.If(ok, slot + 1, e.pos))))
+    return opt_sym(ok, val)
+
+
 def _collect(ex, st, args, dest_ty, func, where):
     from .deltamodels import vlist_push
     els = elements(ex, st, args[0], where)
@@ -416,6 +461,33 @@ def _collect(ex, st, args, dest_ty, func, where):
         same = VList(list(lst.items) + [v], lst.len, lst.elem)
         lst = merge(c, pushed, same) if not z3.is_true(simp(c)) else pushed
     return lst
+
+
+def _vec_extend(ex, st, args, dest_ty, func, where):
+    """<Vec<T> as Extend<T>>::extend(iter): pushes the iterator's elements in order"""
+    from .deltamodels import vlist_push
+    ref = args[0]
+    dst = ex.deref(st, ref)
+    els = elements(ex, st, args[1], where)
+    if isinstance(dst, VSeq):
+        arr, n = dst.arr, dst.len
+        for c, v in els:
+            v = deep(ex, st, v)
+            if not isinstance(v, VInt):
+                raise Unsupported("Vec::extend of %r into a scalar vector" % (v,))
+            arr = z3.If(c, z3.Store(arr, simp(dst.off + n), v.t), arr)
+            n = simp(z3.If(c, n + 1, n))
+        ex.store_ref(st, ref, VSeq(arr, dst.off, n, dst.elem))
+        return UNIT
+    if isinstance(dst, VList):
+        lst = dst
+        for c, v in els:
+            pushed = vlist_push(lst, v)
+            same = VList(list(lst.items) + [v], lst.len, lst.elem)
+            lst = merge(c, pushed, same) if not z3.is_true(simp(c)) else pushed
+        ex.store_ref(st, ref, lst)
+        return UNIT
+    raise Unsupported("Vec::extend on %r" % (dst,))
 
 
 def _into_iter_it(ex, st, args, dest_ty, func, where):
@@ -453,6 +525,11 @@ def install(ex):
     A(pre + r"skip$", _skip, "Iterator::skip")
     A(pre + r"rev$", _rev, "Iterator::rev")
     A(pre + r"(copied|cloned)::<|" + pre + r"(copied|cloned)$", _copied, "Iterator::copied/cloned")
+    A(r"^<Vec<.*> as Extend<.*>>::extend::<", _vec_extend, "<Vec<T> as Extend<T>>::extend(iterator)")
+    A(pre + r"peekable$", _peekable, "Iterator::peekable")
+    A(r"^(std::iter::)?Peekable::<.*>::peek$", _peek, "Peekable::peek")
+    A(r"^(std::iter::)?Peekable::<.*>::next_if::<", _next_if, "Peekable::next_if")
+    A(r"^<(std::iter::)?Peekable<.*> as Iterator>::next$", _next, "Peekable::next")
     A(pre + r"(any|all)::<", _any_all, "Iterator::{any,all}")
     A(pre + r"find::<", _find, "Iterator::find")
     A(pre + r"find_map::<", _find_map, "Iterator::find_map")
